@@ -28,6 +28,9 @@ pub struct Plan {
     pub recover: bool,
     /// harness points the recovering thread passes before it acts (lets emitters get going)
     pub delay: u32,
+    /// also exercise `install()` failing because a global recorder already exists
+    #[serde(default)]
+    pub install_fails: bool,
 }
 
 #[derive(Clone, Debug)]
@@ -68,9 +71,13 @@ impl Scenario for C20Recoverable {
                 _ => Em::DescHistogram,
             }).collect());
         }
-        Plan { emitters, recover: r.chance(700), delay: r.below(4) as u32 }
+        Plan { emitters, recover: r.chance(700), delay: r.below(4) as u32, install_fails: r.chance(300) }
     }
     fn execute(&self, plan: &Plan, sched: &SchedSpec) -> RunReport {
+        static GLOBAL: std::sync::OnceLock<bool> = std::sync::OnceLock::new();
+        if plan.install_fails {
+            GLOBAL.get_or_init(|| metrics::set_global_recorder(metrics::NoopRecorder).is_ok());
+        }
         let log = new_log();
         let shared = Shared::new(log.clone());
         shared.yield_inside.store(true, Ordering::SeqCst);
@@ -155,6 +162,32 @@ impl Scenario for C20Recoverable {
                 h.join();
             }
             drop(wrapped);
+            if p.install_fails {
+                // a global recorder already exists in this worker process (installed below, once)
+                let sh9 = Shared::new(log2.clone());
+                let res = RecoverableRecorder::new(LogRecorder::new(9, sh9.clone())).install();
+                let verdict = match res {
+                    Ok(_) => Some("install() succeeded although a global recorder was already installed".to_string()),
+                    Err(e) => {
+                        let r = e.into_inner();
+                        if r.id != 9 || !r.intact() {
+                            Some(format!("failed install handed back recorder id {} intact={}", r.id, r.intact()))
+                        } else if sh9.drops.load(Ordering::SeqCst) != 0 {
+                            Some("the recorder was dropped by the library before being handed back".to_string())
+                        } else {
+                            drop(r);
+                            if sh9.drops.load(Ordering::SeqCst) != 1 {
+                                Some(format!("recorder drop count {} after the caller dropped it", sh9.drops.load(Ordering::SeqCst)))
+                            } else {
+                                None
+                            }
+                        }
+                    }
+                };
+                if let Some(d) = verdict {
+                    log2.lock().unwrap().push(crate::doubles::Ev { rec: 99, tid: 0, step: 0, op: "install-fails-verdict".into(), name: d, labels: vec![], level: String::new(), target: String::new(), module: None, unit: None, desc: String::new(), value: String::new(), in_scope: true, finalised: false });
+                }
+            }
         });
         let mut rep = RunReport::ok(sim);
         let simr = rep.sim.as_ref().unwrap();
@@ -167,7 +200,10 @@ impl Scenario for C20Recoverable {
         } else if simr.end == dsim::End::Deadlock || simr.end == dsim::End::StepBudget {
             v = violation("recover-never-returns", format!("run ended {:?}: into_inner/handle drop did not complete although all emitters are finite", simr.end));
         } else {
-            if plan.recover && rc.2 != 0 {
+            if let Some(e) = l.iter().find(|e| e.op == "install-fails-verdict") {
+                v = violation("failed-install-recorder-not-intact", e.name.clone());
+            }
+            if v.is_none() && plan.recover && rc.2 != 0 {
                 v = violation("in-flight-at-recovery", format!("into_inner returned at step {} while {} call(s) were executing inside the recorder", rc.1, rc.2));
             }
             if v.is_none() && !rc.3 {
@@ -255,6 +291,6 @@ impl Scenario for C20Recoverable {
         vec!["metrics_util::RecoverableRecorder::{new,build}", "WeakRecorder (all six Recorder methods)", "RecoveryHandle::{into_inner, drop}"]
     }
     fn stub_components(&self) -> Vec<&'static str> {
-        vec!["thread scheduler (dsim)", "wrapped recorder double (counts calls in flight, finalisation flag, drop counter)", "global recorder cell is not involved (install-fails path is covered by the C01 process-per-run scenario)"]
+        vec!["thread scheduler (dsim)", "wrapped recorder double (counts calls in flight, finalisation flag, drop counter)", "the global recorder cell is only involved in the install-fails step (a no-op global recorder is installed once per worker process)"]
     }
 }
